@@ -18,7 +18,7 @@ CHECKS = {
  "C16": dict(engine="pibdsim", cat="exploration", ref="5/C16",
    text="State sync between a real serving node (Segmenter; optionally compacted) and a real headers-only receiver (Desegmenter) through a harness loop mirroring StateSync::continue_pibd, over a simulated network that reorders, duplicates, drops and corrupts serialized segment responses (one root-bound element per corruption), with segment heights 0-4 via the cfg(grin_verif) override; plus the zip path. Honest segments must validate, corrupted ones be refused, assembly must finish within a bounded number of fault-free rounds and the finalized state must equal that of a node that processed every block to the archive header (roots, sizes, unspent set, validate(false)); the rest of the chain is then accepted and a restart succeeds.",
    technique="deterministic simulation: seeded segment delivery schedules with loss/duplication/reordering/corruption between real Segmenter and Desegmenter",
-   note="Trusted base: harness mirror of the sync loop and of receive_*_segment; the serving chain keeps its archive header at or above its compaction horizon (always true with mainnet parameters); single bitmap chunk."),
+   note="Trusted base: harness mirror of the sync loop and of receive_*_segment; the serving chain keeps its archive header at or above its compaction horizon (always true with mainnet parameters); one case in eight has a multi-chunk bitmap (1081+ real outputs)."),
  "C14": dict(engine="poolsim", cat="exploration", ref="5/C14",
    text="A real chain plus a real TransactionPool (over a harness BlockChain adapter that forwards identically to servers::PoolToChainAdapter, with ChainToPoolAndNetAdapter::block_accepted mirrored) are driven with seeded interleavings of submissions of every kind (valid, dependent, conflicting, duplicate, aggregated, under-fee, immature/just-mature coinbase, future/next lock height, stem/fluff), blocks mined from the mineable set, blocks with arbitrary pool subsets and conflicting spends, reorgs and capacity shrinks (every schedule contains a shrink below the current size followed by an under-fee and a valid submission); after every operation the pool's joint validity on the current head, per-entry fee/weight/validity, stempool+txpool validity and the mineable set are checked, and blocks built from the mineable set must be accepted by the chain.",
    technique="deterministic simulation: seeded interleavings of pool submissions, block connections, reorgs and evictions with invariants checked after every step",
